@@ -1,4 +1,5 @@
 import SlotVerif.Model.SnapInv
+import SlotVerif.Model.Extract
 import SlotVerif.Driver.Codec
 /-! `snap` protocol (C08/C09/C05): `snap <sig>;<snapshot lines joined by ~>;<query>;<query>...` -/
 namespace SV.Drv
@@ -73,6 +74,11 @@ def snapQuery (sig : Sig) (s : Snap) (q : String) : String :=
     (match s.lookup (parseFlatNode sig n) with
      | some a => (match s.eq a (parseApp r) with | some true => "1" | some false => "0" | none => "panic")
      | none => "none")
+  | ["best", cfS, i] =>
+    let cf := match cfS with | "ast" => Extract.CF.ast | "depth" => Extract.CF.depth | _ => Extract.CF.op
+    let t := Extract.minCost cf s
+    if !Extract.checkTable cf s t then "table-rejected"
+    else (match Extract.Table.get t (nat! i) with | some k => toString k | none => "none")
   | ["count", i] => (match s.cls (nat! i) with | some c => toString (Grp.count (Snap.group c)) | none => "none")
   | _ => "bad-query"
 
